@@ -691,4 +691,99 @@ theorem mergeTrees_sorted {d : Nat} {ts : List (List Tr)} (hs : AllSorted ts) : 
       exact hC
     exact this
 
+/-! ### merge: lookup along a whole path -/
+
+/-- the node at a path (list of names, outermost first) of a tree: descend through directories -/
+def lookupPath : List Tr → List Nat → Option Tr
+  | _, [] => none
+  | t, [n] => find n t
+  | t, n :: m :: r =>
+    match find n t with
+    | some x => if x.isDir then lookupPath x.sub (m :: r) else none
+    | none => none
+
+/-- the specification, on the inputs only: at every level take the nodes with that name (one per tree having one);
+the `cmp`-maximal one wins; to go deeper it must be a directory, and one continues in the subtrees of ALL directories
+among them; at the end of the path the answer is `merge_nodes` of the nodes found there. -/
+def specLookup : Nat → List (List Tr) → List Nat → Option Tr
+  | 0, _, _ => none
+  | _ + 1, _, [] => none
+  | d + 1, ts, [n] => mergeNodes (mergeTrees d) (row n ts)
+  | d + 1, ts, n :: m :: r =>
+    match row n ts with
+    | [] => none
+    | x :: l =>
+      if (lastMax x l).isDir then specLookup d (((x :: l).filter (·.isDir)).map (·.sub)) (m :: r) else none
+
+mutual
+/-- sorted at every depth -/
+def Tr.DeepSorted : Tr → Prop
+  | .node _ _ _ _ sub => Sorted sub ∧ DeepSortedL sub
+def DeepSortedL : List Tr → Prop
+  | [] => True
+  | t :: l => t.DeepSorted ∧ DeepSortedL l
+end
+
+def AllDeepSorted (ts : List (List Tr)) : Prop := ∀ t ∈ ts, Sorted t ∧ DeepSortedL t
+
+theorem deepSortedL_mem : ∀ {l : List Tr} {x : Tr}, DeepSortedL l → x ∈ l → x.DeepSorted
+  | [], _, _, h => by cases h
+  | t :: l, x, hd, h => by
+    simp only [DeepSortedL] at hd
+    rcases List.mem_cons.mp h with rfl | h
+    · exact hd.1
+    · exact deepSortedL_mem hd.2 h
+
+theorem deepSorted_sub {x : Tr} (h : x.DeepSorted) : Sorted x.sub ∧ DeepSortedL x.sub := by
+  cases x with
+  | node n k d t sub => simpa [Tr.DeepSorted, Tr.sub] using h
+
+theorem allDeepSorted_subs {ts : List (List Tr)} (h : AllDeepSorted ts) (n : Nat) :
+    AllDeepSorted (((row n ts).filter (·.isDir)).map (·.sub)) := by
+  intro t ht
+  obtain ⟨x, hx, rfl⟩ := List.mem_map.mp ht
+  have hx' := (List.mem_filter.mp hx).1
+  obtain ⟨t', ht', hf⟩ := List.mem_filterMap.mp hx'
+  exact deepSorted_sub (deepSortedL_mem (h t' ht').2 (find_some hf).1)
+
+theorem mergeNodes_isDir_sub (rec : List (List Tr) → List Tr) (x : Tr) (l : List Tr) :
+    ∃ y, mergeNodes rec (x :: l) = some y ∧ y.isDir = (lastMax x l).isDir ∧
+      ((lastMax x l).isDir = true → y.sub = rec (((x :: l).filter (·.isDir)).map (·.sub))) := by
+  simp only [mergeNodes]
+  by_cases h : (lastMax x l).isDir = true
+  · rw [if_pos h]
+    exact ⟨_, rfl, by rw [h]; rfl, fun _ => rfl⟩
+  · rw [if_neg h]
+    exact ⟨_, rfl, rfl, fun h' => absurd h' h⟩
+
+/-- **merge, whole paths.**  For inputs sorted at every depth, looking a path up in the merged tree gives what the
+specification computes from the inputs level by level (`d` = recursion depth of `merge_trees`, at least the path length). -/
+theorem lookupPath_mergeTrees : ∀ (p : List Nat) (d : Nat) (ts : List (List Tr)), AllDeepSorted ts → p.length ≤ d →
+    lookupPath (mergeTrees d ts) p = specLookup d ts p
+  | [], d, ts, _, _ => by cases d <;> simp [lookupPath, specLookup]
+  | [n], d, ts, hs, hd => by
+    cases d with
+    | zero => simp at hd
+    | succ d =>
+      simp only [lookupPath, specLookup]
+      exact find_mergeTrees (fun t ht => (hs t ht).1) n
+  | n :: m :: r, d, ts, hs, hd => by
+    cases d with
+    | zero => simp at hd
+    | succ d =>
+      simp only [lookupPath, specLookup]
+      rw [find_mergeTrees (fun t ht => (hs t ht).1) n]
+      cases hr : row n ts with
+      | nil => simp [mergeNodes]
+      | cons x l =>
+        obtain ⟨y, hy, hyd, hys⟩ := mergeNodes_isDir_sub (mergeTrees d) x l
+        simp only [hy, hyd]
+        by_cases hdir : (lastMax x l).isDir = true
+        · simp only [hdir, if_true]
+          rw [hys hdir]
+          have hsub := allDeepSorted_subs hs n
+          rw [hr] at hsub
+          exact lookupPath_mergeTrees (m :: r) d _ hsub (by simp at hd ⊢; omega)
+        · simp [hdir]
+
 end Rustic.TreeOps
